@@ -43,6 +43,7 @@ def run(ctx: Ctx) -> None:
     orbits.rule_iso_finder_bounds(ctx)
     orbits.rule_distinct_sources(ctx)
     orbits.rule_iso_bounded(ctx)
+    orbits.rule_prefix_set(ctx)
     orbits.rule_iso_input_first(ctx)
     orbits.rule_labelled_equality(ctx)
     shapes.rule_relabel_form(ctx)
@@ -54,6 +55,7 @@ def run(ctx: Ctx) -> None:
 
 
 KNOCKOUTS = [
+    Knockout("depth-first-orbit-appends-along-paths", RELABEL, sub_once("    for lc_ops in path_set:\n        new_g = g\n        for x in lc_ops:\n            new_g = local_comp_graph(new_g, x)\n        orbit_list.append(new_g)\n", "    for lc_ops in path_list:\n        new_g = g\n        for x in lc_ops:\n            new_g = local_comp_graph(new_g, x)\n            orbit_list.append(new_g)\n"), "distinct.prefix-set", "along every path"),
     Knockout("iso-finder-plain-return-uncut", RELABEL, sub_once("            return adj_arr[:n_iso], mapping\n        return adj_arr[:n_iso]\n", "            return adj_arr[:n_iso], mapping\n        return adj_arr\n"), "iso.bounded", "unbounded return"),
     Knockout("orbit-finder-keeps-input-beside-scrambled-start", RELABEL, sub_once("        orbit_list = [new_g]\n", "        orbit_list.append(new_g)\n"), "distinct.source", "untested append"),
     Knockout("equal-graphs-compares-attributes", RELABEL, sub_once("    return np.array_equal(adj1, adj2)\n\n\ndef _compare_graphs_visual", "    return nx.utils.graphs_equal(g1, g2)\n\n\ndef _compare_graphs_visual"), "cmp.labelled-graphs", "graphs_equal"),
